@@ -1,4 +1,642 @@
-//! tasktracker: not built yet.
-pub fn run(args: &vh_common::Args) {
-    vh_common::unknown(args)
+//! TaskTracker (C14): the real `TaskTracker` / `Task` of p2panda/src/processor/tasks.rs driven
+//! under schedules chosen by TLC (replay) or by a seeded random scheduler (record), against
+//! spec/TaskTracker.
+//!
+//! All actors (submitters = `Pipeline::process` callers, and the pipeline thread's
+//! `mark_as_done` loop) are futures polled *by hand* on one thread.  Every cfg-guarded schedule
+//! point of the real code (`p2panda_core::verif::point`) and every harness-level point yields
+//! exactly once, so one poll advances an actor from one schedule point to the next: one spec
+//! action.  There is no runtime, no timer and no other thread: when every unfinished actor has
+//! returned `Pending` and no waker has fired, nothing can ever wake them again -- that is how
+//! "the call never returns" is decided (no wall clock involved).
+use std::cell::RefCell;
+use std::collections::BTreeMap;
+use std::future::Future;
+use std::pin::Pin;
+use std::rc::Rc;
+use std::sync::Arc;
+use std::sync::atomic::{AtomicUsize, Ordering};
+use std::task::{Context, Poll, Wake, Waker};
+
+use p2panda::verif_api::TaskTracker;
+use tokio::sync::mpsc;
+use vh_common::{Args, Outcome, Rng, TraceWriter, Value, catch, json, read_ndjson, unknown};
+
+pub fn run(args: &Args) {
+    match (args.mode.as_str(), args.extra.get("mode").map(|s| s.as_str())) {
+        ("replay", Some("pipeline")) => replay_pipeline(args),
+        ("replay", _) => replay(args),
+        ("record", _) => record(args),
+        _ => unknown(args),
+    }
+}
+
+// ------------------------------------------------------------------------------------------
+// schedule points
+
+thread_local! {
+    /// Set while the harness polls an actor: the last schedule point that actor reached.
+    pub(crate) static CURRENT: RefCell<Option<Option<&'static str>>> = const { RefCell::new(None) };
+}
+
+/// A future that is `Pending` exactly once.
+pub(crate) struct YieldOnce(bool);
+
+impl Future for YieldOnce {
+    type Output = ();
+    fn poll(mut self: Pin<&mut Self>, _cx: &mut Context<'_>) -> Poll<()> {
+        if self.0 {
+            Poll::Ready(())
+        } else {
+            self.0 = true;
+            Poll::Pending
+        }
+    }
+}
+
+/// Controller installed into `p2panda_core::verif`: on the harness thread, while an actor is
+/// being polled, a schedule point records its name and yields once; anywhere else it is a no-op.
+pub(crate) fn controller(name: &'static str) -> Option<p2panda_core::verif::Parked> {
+    CURRENT.with(|c| {
+        let mut c = c.borrow_mut();
+        match c.as_mut() {
+            Some(slot) => {
+                *slot = Some(name);
+                Some(Box::pin(YieldOnce(false)) as p2panda_core::verif::Parked)
+            }
+            None => None,
+        }
+    })
+}
+
+/// Harness-level schedule point (same mechanics as the hooks inside the real code).
+async fn hpoint(name: &'static str) {
+    if let Some(p) = controller(name) {
+        p.await
+    }
+}
+
+pub(crate) struct CountingWaker(pub AtomicUsize);
+
+impl Wake for CountingWaker {
+    fn wake(self: Arc<Self>) {
+        self.0.fetch_add(1, Ordering::SeqCst);
+    }
+    fn wake_by_ref(self: &Arc<Self>) {
+        self.0.fetch_add(1, Ordering::SeqCst);
+    }
+}
+
+#[derive(Clone, Debug, PartialEq, Eq)]
+pub(crate) enum Loc {
+    /// Not polled yet.
+    Start,
+    /// Parked at the named schedule point.
+    At(&'static str),
+    /// Returned `Pending` without reaching a schedule point: waiting for a lock / channel / notify.
+    Blocked(Option<&'static str>),
+    Done,
+    Panicked(String),
+}
+
+pub(crate) struct Actor {
+    pub fut: Option<Pin<Box<dyn Future<Output = ()>>>>,
+    pub loc: Loc,
+    pub wakes: Arc<CountingWaker>,
+}
+
+impl Actor {
+    pub fn new(fut: Pin<Box<dyn Future<Output = ()>>>) -> Actor {
+        Actor {
+            fut: Some(fut),
+            loc: Loc::Start,
+            wakes: Arc::new(CountingWaker(AtomicUsize::new(0))),
+        }
+    }
+
+    pub fn finished(&self) -> bool {
+        matches!(self.loc, Loc::Done | Loc::Panicked(_))
+    }
+
+    /// Last schedule point this actor passed (where it is parked, or where it was before blocking).
+    pub fn last_point(&self) -> Option<&'static str> {
+        match &self.loc {
+            Loc::At(p) => Some(p),
+            Loc::Blocked(p) => *p,
+            _ => None,
+        }
+    }
+
+    /// Polls the actor once. Returns true iff it made progress (reached a point or finished).
+    pub fn poll(&mut self) -> bool {
+        let before = self.last_point();
+        let Some(fut) = self.fut.as_mut() else {
+            return false;
+        };
+        CURRENT.with(|c| *c.borrow_mut() = Some(None));
+        let waker = Waker::from(self.wakes.clone());
+        let mut cx = Context::from_waker(&waker);
+        let res = catch(|| fut.as_mut().poll(&mut cx));
+        let reached = CURRENT.with(|c| c.borrow_mut().take()).flatten();
+        match res {
+            Err(p) => {
+                self.fut = None;
+                self.loc = Loc::Panicked(p);
+                true
+            }
+            Ok(Poll::Ready(())) => {
+                self.fut = None;
+                self.loc = Loc::Done;
+                true
+            }
+            Ok(Poll::Pending) => match reached {
+                Some(p) => {
+                    self.loc = Loc::At(p);
+                    true
+                }
+                None => {
+                    self.loc = Loc::Blocked(before);
+                    false
+                }
+            },
+        }
+    }
+}
+
+// ------------------------------------------------------------------------------------------
+// the system under test: real TaskTracker, harness-owned channel (tracker-level replay)
+
+pub(crate) type Res = (u64, u64); // (operation id, processing run)
+
+#[derive(Default)]
+pub(crate) struct Shared {
+    /// Per submitter: results returned by finished calls.
+    pub rets: BTreeMap<String, Vec<Res>>,
+    /// Per submitter: creation index (1-based) of the task instance `track` returned last.
+    pub held: BTreeMap<String, usize>,
+    /// Task instances by address, in creation order; clones are kept alive (no address reuse).
+    pub tasks: Vec<usize>,
+    pub runs: u64,
+}
+
+struct System {
+    subs: Vec<String>,
+    actors: BTreeMap<String, Actor>,
+    shared: Rc<RefCell<Shared>>,
+    #[allow(dead_code)]
+    keep_tx: mpsc::Sender<(u64, String)>,
+}
+
+fn id_num(id: &str) -> u64 {
+    id.trim_start_matches('i').parse().expect("ids are i<N>")
+}
+
+/// `more[s]`: the submitter's call table goes on after the calls it executes in this run (record
+/// mode cuts tables short): it then parks at `h.returned` (spec location `track`) and stops.
+fn build(calls: &BTreeMap<String, Vec<String>>, more: &BTreeMap<String, bool>, cap: usize) -> System {
+    let tracker = TaskTracker::<Res, u64>::new();
+    let (tx, mut rx) = mpsc::channel::<(u64, String)>(cap.max(1));
+    let shared = Rc::new(RefCell::new(Shared::default()));
+    let mut actors = BTreeMap::new();
+    // keeps every Task instance alive so that instance addresses are never reused
+    let keep: Rc<RefCell<Vec<p2panda::verif_api::Task<Res, u64>>>> = Rc::new(RefCell::new(Vec::new()));
+
+    for (s, ids) in calls {
+        let (tracker, tx, shared, keep) = (tracker.clone(), tx.clone(), shared.clone(), keep.clone());
+        let (s2, ids) = (s.clone(), ids.clone());
+        let more = more.get(s).copied().unwrap_or(false);
+        // mirrors Pipeline::process (pipeline.rs:162-176): track, send, ready
+        let fut = async move {
+            let n = ids.len();
+            for (k, id) in ids.iter().enumerate() {
+                let id = id_num(id);
+                let task = tracker.track(id).await;
+                {
+                    let mut sh = shared.borrow_mut();
+                    let addr = task.verif_addr();
+                    let idx = match sh.tasks.iter().position(|a| *a == addr) {
+                        Some(i) => i + 1,
+                        None => {
+                            sh.tasks.push(addr);
+                            keep.borrow_mut().push(task.clone());
+                            sh.tasks.len()
+                        }
+                    };
+                    sh.held.insert(s2.clone(), idx);
+                }
+                hpoint("h.tracked").await;
+                let _ = tx.send((id, s2.clone())).await;
+                hpoint("h.sent").await;
+                let r = task.ready().await;
+                {
+                    let mut sh = shared.borrow_mut();
+                    sh.rets.entry(s2.clone()).or_default().push(r);
+                    sh.held.insert(s2.clone(), 0);
+                }
+                if k + 1 < n || more {
+                    hpoint("h.returned").await;
+                }
+            }
+        };
+        actors.insert(s.clone(), Actor::new(Box::pin(fut)));
+    }
+
+    {
+        let (tracker, shared) = (tracker.clone(), shared.clone());
+        // mirrors the pipeline thread (pipeline.rs:138-140)
+        let fut = async move {
+            while let Some((id, _from)) = rx.recv().await {
+                let run = {
+                    let mut sh = shared.borrow_mut();
+                    sh.runs += 1;
+                    sh.runs
+                };
+                hpoint("h.recvd").await;
+                tracker.mark_as_done(id, (id, run)).await;
+                hpoint("h.marked").await;
+            }
+        };
+        actors.insert("pipe".to_string(), Actor::new(Box::pin(fut)));
+    }
+
+    System {
+        subs: calls.keys().cloned().collect(),
+        actors,
+        shared,
+        keep_tx: tx,
+    }
+}
+
+impl System {
+    /// Runs every unfinished actor (fixed order) until nobody can move any more: every actor is
+    /// finished or has returned `Pending` without reaching a point and its waker has not fired.
+    fn run_to_quiescence(&mut self) {
+        loop {
+            let mut progress = false;
+            let names: Vec<String> = self.actors.keys().cloned().collect();
+            for name in names {
+                let a = self.actors.get_mut(&name).unwrap();
+                if a.finished() {
+                    continue;
+                }
+                // a blocked actor is only worth polling again if its waker fired
+                if matches!(a.loc, Loc::Blocked(_)) && a.wakes.0.load(Ordering::SeqCst) == 0 {
+                    continue;
+                }
+                a.wakes.0.store(0, Ordering::SeqCst);
+                if a.poll() {
+                    progress = true;
+                }
+            }
+            let any_woken = self
+                .actors
+                .values()
+                .any(|a| !a.finished() && matches!(a.loc, Loc::Blocked(_)) && a.wakes.0.load(Ordering::SeqCst) > 0);
+            if !progress && !any_woken {
+                break;
+            }
+        }
+    }
+
+    fn stuck(&self) -> Vec<String> {
+        self.subs
+            .iter()
+            .filter(|s| !matches!(self.actors[*s].loc, Loc::Done))
+            .cloned()
+            .collect()
+    }
+}
+
+/// Which order `Task::ready` of the code under test uses, found by probing the real code:
+/// true = the Notified future is created before the result check (hook `task.ready.after_create`
+/// comes first), false = result check first (hook `task.ready.after_check` comes first).
+pub(crate) fn probe_register_first() -> bool {
+    let tracker = TaskTracker::<Res, u64>::new();
+    let t2 = tracker.clone();
+    let mut a = Actor::new(Box::pin(async move {
+        let task = t2.track(1).await;
+        let _ = task.ready().await;
+    }));
+    a.poll();
+    a.loc == Loc::At("task.ready.after_create")
+}
+
+fn sub_loc_name(loc: &Loc, register_first: bool) -> String {
+    match loc {
+        Loc::Start => "track".into(),
+        Loc::At("h.tracked") => "send".into(),
+        Loc::At("h.sent") => if register_first { "create" } else { "check" }.into(),
+        Loc::At("task.ready.after_create") => "check".into(),
+        Loc::At("task.ready.after_check") => if register_first { "await" } else { "window" }.into(),
+        Loc::Blocked(Some("task.ready.after_check")) => "await".into(),
+        Loc::At("h.returned") => "track".into(),
+        Loc::Done => "finished".into(),
+        other => format!("{other:?}"),
+    }
+}
+
+fn pipe_loc_name(loc: &Loc) -> String {
+    match loc {
+        Loc::Start | Loc::At("h.marked") => "idle".into(),
+        Loc::Blocked(_) => "idle".into(),
+        Loc::At("h.recvd") => "remove".into(),
+        Loc::At("tracker.mark_as_done.after_remove") => "set".into(),
+        Loc::At("task.mark_as_done.after_set") => "notify".into(),
+        Loc::At("task.mark_as_done.after_notify") => "unlock".into(),
+        other => format!("{other:?}"),
+    }
+}
+
+fn calls_of(b: &Value) -> BTreeMap<String, Vec<String>> {
+    let mut m = BTreeMap::new();
+    for (s, ids) in b["cfg"]["subs"].as_object().expect("cfg.subs") {
+        m.insert(
+            s.clone(),
+            ids.as_array().expect("ids").iter().map(|x| x.as_str().unwrap().to_string()).collect(),
+        );
+    }
+    m
+}
+
+/// Property-level verdict at quiescence (independent of what the spec expected).
+fn judge(sys: &System, calls: &BTreeMap<String, Vec<String>>, out: &mut Outcome, case: &Value) -> bool {
+    let mut ok = true;
+    for s in sys.stuck() {
+        ok = false;
+        let a = &sys.actors[&s];
+        match &a.loc {
+            Loc::Panicked(p) => out.violation(
+                "C14",
+                "ready-panics",
+                format!("submitter {s}: Pipeline::process path panicked: {p}"),
+                case.clone(),
+            ),
+            loc => {
+                let sig = if a.last_point() == Some("task.ready.after_check") {
+                    "lost-wakeup:ready-waits-after-result-was-set"
+                } else {
+                    "call-never-returns"
+                };
+                out.violation(
+                    "C14",
+                    sig,
+                    format!(
+                        "submitter {s} never returns: all actors are idle, no waker fired, the tracker holds no task, \
+                         yet its call is still pending at {loc:?} (result slot was filled and notify_waiters() ran \
+                         before this waiter was registered)"
+                    ),
+                    case.clone(),
+                )
+            }
+        }
+    }
+    let sh = sys.shared.borrow();
+    for (s, ids) in calls {
+        let rets = sh.rets.get(s).cloned().unwrap_or_default();
+        for (k, r) in rets.iter().enumerate() {
+            if r.0 != id_num(&ids[k]) || r.1 == 0 || r.1 > sh.runs {
+                ok = false;
+                out.violation(
+                    "C14",
+                    "foreign-result",
+                    format!("submitter {s} call {k}: submitted {} but got the result {r:?}", ids[k]),
+                    case.clone(),
+                );
+            }
+        }
+    }
+    ok
+}
+
+fn replay(args: &Args) {
+    p2panda_core::verif::set_async_controller(Some(Arc::new(controller)));
+    let behaviours = read_ndjson(args.input.as_ref().expect("--in"));
+    let code_rf = probe_register_first();
+    let mut out = Outcome::new(
+        args,
+        "every TLC-exported schedule forced step by step on the real TaskTracker/Task (hand-polled futures, one poll per \
+         spec action), location + task instance + returned (id, run) compared after every step, then run to quiescence: \
+         every call must have returned its own id; non-trivial = a schedule in which some submitter passed the result \
+         check with None (it has to be woken); distinct by step sequence",
+    );
+    out.count(if code_rf { "code_order_register_first" } else { "code_order_check_first" });
+
+    for b in &behaviours {
+        out.eval();
+        let calls = calls_of(b);
+        let cap = b["cfg"]["cap"].as_u64().unwrap_or(128) as usize;
+        let spec_rf = b["cfg"]["registerFirst"].as_bool().unwrap_or(true);
+        let mut sys = build(&calls, &BTreeMap::new(), cap);
+        let mut nontrivial = false;
+        let mut mismatch: Option<String> = None;
+
+        for (k, st) in b["steps"].as_array().expect("steps").iter().enumerate() {
+            let actor = st["actor"].as_str().unwrap();
+            let act = st["act"].as_str().unwrap();
+            out.count(&format!("act_{act}"));
+            if act == "CheckNone" {
+                nontrivial = true;
+            }
+            // The spec creates the Notified before the check but the code under test checks
+            // first (the defect as found, or a regression): there is no separate creation step
+            // in the code, the creation happens when the waiter leaves the window.
+            if spec_rf != code_rf && act == "CreateNotified" {
+                continue;
+            }
+            let a = sys.actors.get_mut(actor).unwrap();
+            a.poll();
+            if !spec_rf && code_rf && act.starts_with("Check") {
+                a.poll(); // the code has creation + check where the (defect) spec has the check alone
+            }
+            let got_pc = if actor == "pipe" {
+                pipe_loc_name(&a.loc)
+            } else {
+                sub_loc_name(&a.loc, code_rf)
+            };
+            let want_pc = st["pc"].as_str().unwrap().to_string();
+            let sh = sys.shared.borrow();
+            let mut bad = None;
+            if spec_rf == code_rf && got_pc != want_pc {
+                bad = Some(format!("step {k} {actor}.{act}: code is at `{got_pc}`, spec at `{want_pc}`"));
+            } else if actor != "pipe" {
+                let rets = sh.rets.get(actor).cloned().unwrap_or_default();
+                let want_n = st["nret"].as_u64().unwrap() as usize;
+                if spec_rf == code_rf && rets.len() != want_n {
+                    bad = Some(format!("step {k} {actor}.{act}: {} calls returned, spec says {want_n}", rets.len()));
+                } else if rets.len() == want_n && want_n > 0 {
+                    let want = (id_num(st["last"]["id"].as_str().unwrap()), st["last"]["run"].as_u64().unwrap());
+                    if rets[want_n - 1] != want {
+                        bad = Some(format!(
+                            "step {k} {actor}.{act}: returned {:?}, spec says {want:?}",
+                            rets[want_n - 1]
+                        ));
+                    }
+                }
+                if bad.is_none() && act == "Track" {
+                    let held = *sh.held.get(actor).unwrap_or(&0);
+                    if held as u64 != st["held"].as_u64().unwrap() {
+                        bad = Some(format!(
+                            "step {k} {actor}.Track: got task instance #{held}, spec says #{}",
+                            st["held"]
+                        ));
+                    }
+                }
+            }
+            drop(sh);
+            if let Some(m) = bad {
+                mismatch = Some(m);
+                break;
+            }
+        }
+
+        // free run: whatever the prefix was, every call has to return now
+        sys.run_to_quiescence();
+        let ok = judge(&sys, &calls, &mut out, b);
+        if ok {
+            if let Some(m) = mismatch {
+                out.violation("C14", "spec-mismatch", m, b.clone());
+            } else if b["kind"] == "full" {
+                // complete behaviour: the spec's final verdict per submitter must be the code's
+                let want: Vec<String> =
+                    b["stuck"].as_array().map(|v| v.iter().map(|x| x.as_str().unwrap().to_string()).collect()).unwrap_or_default();
+                if !want.is_empty() {
+                    out.violation(
+                        "C14",
+                        "spec-mismatch",
+                        format!("spec says {want:?} never return, the code returned them all"),
+                        b.clone(),
+                    );
+                }
+            }
+        }
+        if nontrivial {
+            out.mark_distinct(
+                b["steps"]
+                    .as_array()
+                    .unwrap()
+                    .iter()
+                    .map(|s| format!("{}.{}", s["actor"].as_str().unwrap(), s["act"].as_str().unwrap()))
+                    .collect::<Vec<_>>()
+                    .join(","),
+            );
+        }
+        if ok {
+            out.sample(json!({"cfg": b["cfg"], "steps": b["steps"].as_array().unwrap().len(), "kind": b["kind"]}));
+        }
+    }
+    p2panda_core::verif::set_async_controller(None);
+    out.write(args);
+}
+
+// ------------------------------------------------------------------------------------------
+// impl -> spec: seeded random scheduler over the real code, one event per poll
+
+fn record(args: &Args) {
+    p2panda_core::verif::set_async_controller(Some(Arc::new(controller)));
+    let code_rf = probe_register_first();
+    let mut rng = Rng::new(args.seed);
+    let mut w = TraceWriter::create(args.out.as_ref().expect("--out"));
+    let mut out = Outcome::new(
+        args,
+        "seeded random schedules (3-5 submitters, 0-4 calls each over 1-3 ids, channel capacity 1-3) executed on the real \
+         TaskTracker/Task; one event per poll with the location reached, the task instance and the returned result; \
+         every run must end with all calls returned; non-trivial = some call had to wait (CheckNone); distinct by schedule",
+    );
+    let n = if args.n == 0 { 50 } else { args.n };
+    // one configuration per trace file (the trace spec takes its constants from the first event);
+    // every run executes a random prefix of every submitter's call list
+    let nsubs = rng.range(3, 5) as usize;
+    let nids = rng.range(1, 3);
+    let cap = rng.range(1, 3) as usize;
+    let mut table: BTreeMap<String, Vec<String>> = BTreeMap::new();
+    for s in 0..nsubs {
+        let ids: Vec<String> = (0..4).map(|_| format!("i{}", rng.range(1, nids))).collect();
+        table.insert(format!("s{}", s + 1), ids);
+    }
+    for run in 0..n {
+        let mut calls = BTreeMap::new();
+        let mut more = BTreeMap::new();
+        for (s, ids) in &table {
+            let k = rng.range(0, ids.len() as u64) as usize;
+            calls.insert(s.clone(), ids[..k].to_vec());
+            more.insert(s.clone(), k < ids.len());
+        }
+        let mut sys = build(&calls, &more, cap);
+        w.event(json!({"ev": "Reset", "run": run, "calls": table, "cap": cap, "registerFirst": code_rf}));
+        let mut sched = Vec::new();
+        let mut waited = false;
+        loop {
+            // runnable = not finished and (at a point / not started / blocked with a fired waker)
+            let runnable: Vec<String> = sys
+                .actors
+                .iter()
+                .filter(|(_, a)| {
+                    !a.finished()
+                        && (!matches!(a.loc, Loc::Blocked(_)) || a.wakes.0.load(Ordering::SeqCst) > 0)
+                })
+                .map(|(n, _)| n.clone())
+                .collect();
+            if runnable.is_empty() {
+                break;
+            }
+            let name = rng.pick(&runnable).clone();
+            let a = sys.actors.get_mut(&name).unwrap();
+            let from = a.loc.clone();
+            a.wakes.0.store(0, Ordering::SeqCst);
+            let progressed = a.poll();
+            let to = a.loc.clone();
+            sched.push(name.clone());
+            if !progressed && matches!(from, Loc::Blocked(_)) {
+                continue; // spurious wake-up: nothing happened
+            }
+            let sh = sys.shared.borrow();
+            if name == "pipe" {
+                // a pipeline poll that only blocks on the empty channel is no spec step
+                if !progressed {
+                    continue;
+                }
+                w.event(json!({"ev": "Pipe", "pc": pipe_loc_name(&to), "runs": sh.runs}));
+            } else {
+                // a submitter whose table was cut short stops silently (the spec leaves it at `track`)
+                if to == Loc::Done && more[&name] {
+                    continue;
+                }
+                let pc = sub_loc_name(&to, code_rf);
+                if pc == "await" || pc == "window" {
+                    waited = true;
+                }
+                // blocked on the full channel / on the tracker lock: no spec step happened
+                // (check-first code only: leaving the window = creating the Notified, then it waits)
+                if !progressed
+                    && (code_rf
+                        || from != Loc::At("task.ready.after_check")
+                        || to != Loc::Blocked(Some("task.ready.after_check")))
+                {
+                    continue;
+                }
+                let rets = sh.rets.get(&name).cloned().unwrap_or_default();
+                let last = rets.last().copied().unwrap_or((0, 0));
+                w.event(json!({
+                    "ev": "Sub", "s": name, "pc": pc, "held": sh.held.get(&name).copied().unwrap_or(0),
+                    "nret": rets.len(),
+                    "last": {"id": if last.0 == 0 { "none".to_string() } else { format!("i{}", last.0) }, "run": last.1},
+                }));
+            }
+        }
+        out.eval();
+        let case = json!({"calls": calls, "cap": cap, "schedule": sched});
+        judge(&sys, &calls, &mut out, &case);
+        if waited {
+            out.mark_distinct(sched.join(","));
+        }
+        out.sample(json!({"calls": calls, "cap": cap, "polls": sched.len()}));
+    }
+    let (events, runs) = w.finish();
+    out.set_trace(events, runs);
+    p2panda_core::verif::set_async_controller(None);
+    out.write(args);
+}
+
+fn replay_pipeline(args: &Args) {
+    unknown(args)
 }
